@@ -55,6 +55,10 @@ BOUNDED_VALUES = [
     "[]", "[1, 2, 3]", "[1.5, 100000000000000000000.0]", "[\"a\\\"b\", \"\"]", "[[1], []]",
     "(1, \"x\")", "(1.5, [2], (3, 4))", "Dict[\"a\" => 1]", "Dict[\"k\\\"\" => [1.5]]",
     "True", "False", "Unit", "Some(1)", "None", "Some(\"x\\\\\")", "Ok(1.5)", "Err(\"e\")", "Some((1, [2.5]))",
+    # characters that Rust's Debug formatter escapes and Garden's literal syntax does not (combining marks, zero-width and
+    # control characters, private-use code points): as dict keys, dict values, list items, struct fields, enum payloads
+    "Dict[\"cafe\u0301\" => [1, 2], \"plain\" => [3]]", "Dict[\"zero\u200bwidth\" => \"v\u200b\"]", "Dict[\"bell\u0007\" => 1, \"del\u007f\" => 2, \"pua\ue000\" => 3]",
+    "[\"cafe\u0301\", \"\u200b\", \"\u0007\"]", "(\"e\u0301\", Some(\"\u200d\"))", "Named{ label: \"x\u0301\u200b\", inner: Point{ x: 1, y: 2 }, tags: [\"\u0007\"] }",
     # user-defined types (definitions in ROUNDTRIP_DEFS): struct literals with the fields in and out of definition order, nested, enums
     "Point{ x: 1, y: 2 }", "Point{ y: 2, x: 1 }", "[Point{ y: 2, x: 1 }, Point{ x: 3, y: 4 }]", "Some(Point{ y: 5, x: 6 })", "(Point{ y: 7, x: 8 }, 1.5)",
     "Named{ label: \"a\\\"b\", inner: Point{ y: 1, x: 2 }, tags: [\"t\"] }", "Named{ tags: [], inner: Point{ x: 0, y: 0 }, label: \"\" }",
